@@ -105,6 +105,34 @@ def corruption_patterns(rng, data, spans, bursts_per_pos, all_single=True, strid
                 yield ('burst%d' % (16 if ct == 1 else 32), sorted(set(bits)))
 
 
+def check_crc_functions(chk, n):
+    ''' three CRC implementations on the same octets: Lean bit-at-a-time over BitVec (the proved one),
+    Python bit-at-a-time (the octet oracle of this harness) and what the repository calls
+    (AbstractBlock.CRC_DEFN: crcmod stand-in + struct.pack) '''
+    R = G.real()
+    from bp.encoding.blocks import AbstractBlock
+    rng = chk.rng
+    msgs = [b'123456789', b'', b'\x00', b'\xff' * 4]
+    for _ in range(n):
+        msgs.append(bytes(rng.randrange(256) for _ in range(G.gen_len(rng) + rng.randrange(3))))
+    outs = chk.driver([{'op': 'bp.crc', 'type': t, 'hex': m.hex()} for m in msgs for t in (1, 2)])
+    k = 0
+    for m in msgs:
+        for t in (1, 2):
+            o = outs[k]
+            k += 1
+            defn = AbstractBlock.CRC_DEFN[AbstractBlock.CrcType(t)]
+            real = defn['encode'](defn['func'](m))
+            py = G.crc_octets(t, m)
+            chk.case({'crc': t, 'hex': m.hex()})
+            chk.count('CRC:function agreement')
+            if not (o['hex'] == py.hex() == real.hex()):
+                rp = {'crc_type': t, 'hex': m.hex(), 'lean': o['hex'], 'python_bitwise': py.hex(), 'real': real.hex()}
+                chk.corr_break('CRC functions disagree', rp)
+                if py.hex() == o['hex']:
+                    chk.violation('C08:crc-function-wrong', 'the repository CRC of type %d differs from the catalogue algorithm' % t, rp)
+
+
 def check_output(chk, rx, specs):
     R = rx.R
     outs = chk.driver([{'op': 'bp.updatecrc', 'bundle': G.spec_json(s)} for s in specs])
@@ -181,7 +209,7 @@ def check_input(chk, rx, spec, bursts_per_pos, stride, budget=None):
     nb = len(cases)
     cases = [c for c in cases if not G.bomb_screen(c[2])]
     if nb != len(cases):
-        chk.count('IN:not run: uint >= 2^26 in a byte-string slot (BstrField.m2i would allocate that many octets)', nb - len(cases))
+        chk.count('IN:not run: uint >= 2^17 in a byte-string slot (BstrField.m2i would allocate that many octets)', nb - len(cases))
     gates = chk.driver([{'op': 'bp.gate', 'hex': c[2].hex(), 'own': own} for c in cases])
     crcs = []
     for (kind, bits, bad), g in zip(cases, gates):
@@ -207,8 +235,8 @@ def check_input(chk, rx, spec, bursts_per_pos, stride, budget=None):
             replay['delta'] = r['delta']
             replay['octet_verdict'] = detail
             replay['real_check_all_crc'] = r['crc_fail']
-            if r['reenc'] is not None and r['reenc'] != bad:
-                replay['reencoded_hex'] = r['reenc'].hex()
+            if r['reenc'] != bad:
+                replay['reencoded_hex'] = r['reenc'].hex() if r['reenc'] is not None else None
                 cls = d20_class(data, bad, detail)
                 replay['class'] = cls
                 chk.count('IN:accepted-corruption class=%s' % cls)
@@ -270,6 +298,8 @@ def d20_class(orig, bad, detail):
         return 'eid-final-slash (urlsplit drops ?query/#fragment, "/" re-inserted)'
     if len(diffs) == 1 and 0x40 <= orig[diffs[0]] <= 0x5b and bad[diffs[0]] < 0x20:
         return 'bstr-slot-holds-uint (bytes(int) -> zero octets)'
+    if len(diffs) == 1 and orig[diffs[0]] == 0x01 and bad[diffs[0]] == 0xf5:
+        return 'python-equality-coercion (CBOR true == 1 accepted as the integer)'
     return 'other'
 
 
@@ -333,6 +363,7 @@ def run(chk):
     G.limit_memory()
     rx = Rx()
     t_in = 110 if quick else 1000
+    check_crc_functions(chk, 150 if quick else 3000)
     # ---- output
     n_out = 300 if quick else 4000
     specs = [G.gen_bundle(rng, i, crc_mode=('update' if i % 4 else 'given'), force_crc=(i % 3 != 0)) for i in range(n_out)]
